@@ -4,7 +4,24 @@ def P(src, quick, thorough, level="exploration", **kw):
     d.update(kw)
     return d
 
+ASSUME = ["reference: closed-form generalised Gell-Mann basis and dense complex algebra in long double (harness/common/ref.h), shares no code with the library",
+          "library objects and harness built from /repo working tree with clang ASan+UBSan (-O1, -ffp-contract=off), library asserts enabled",
+          "inputs restricted to documented preconditions (DESIGN.md section 3)"]
+
 PLANS = {
+    "C01": P("c01_linear_image.cpp",
+             quick=[dict(mode="pbt", cases=6000, shards=4)],
+             thorough=[dict(mode="pbt", cases=125000, shards=16)],
+             assumptions=ASSUME),
+    "C02": P("c02_products.cpp",
+             quick=[dict(mode="enum"), dict(mode="pbt", cases=5000, shards=4)],
+             thorough=[dict(mode="enum"), dict(mode="pbt", cases=125000, shards=16)],
+             exhaustive_axes="all (d^2)^2 ordered generator pairs for d=2..6 (2274)",
+             assumptions=ASSUME),
+    "C03": P("c03_evolution.cpp",
+             quick=[dict(mode="pbt", cases=5000, shards=4)],
+             thorough=[dict(mode="pbt", cases=125000, shards=16)],
+             assumptions=ASSUME),
     "C13": P("c13_factories.cpp",
              quick=[dict(mode="enum"), dict(mode="pbt", cases=3000, shards=1)],
              thorough=[dict(mode="enum"), dict(mode="pbt", cases=40000, shards=16)],
